@@ -13,7 +13,7 @@ vars == <<pc, c, o, expect>>
 MCClasses == {"NaN", "zero", "one", "nonint"}
 SigsMC == { [ar |-> 0, ip |-> <<>>], [ar |-> 1, ip |-> <<>>], [ar |-> 1, ip |-> <<1>>],
             [ar |-> 2, ip |-> <<>>], [ar |-> 2, ip |-> <<1>>], [ar |-> 2, ip |-> <<1, 2>>] }
-NoOut == [val |-> "fin", err |-> "none", dn |-> <<>>, hn |-> <<>>, det |-> TRUE]
+NoOut == [val |-> "fin", err |-> "none", dn |-> <<>>, hn |-> <<>>, du |-> <<>>, hu |-> <<>>, det |-> TRUE]
 NH(k) == (k.ar * (k.ar + 1)) \div 2
 
 CasesMC == { k \in [id : {1}, fn : {"f"}, ar : 0..2, ip : {<<>>, <<1>>, <<1, 2>>}, rnd : BOOLEAN, str : {FALSE},
@@ -27,12 +27,20 @@ IssueStep == pc = "idle" /\ pc' = "called" /\ c' \in CasesMC /\ UNCHANGED <<o, e
 MustReport(k) == \/ \E i \in 1..k.ar : k.cls[i] = "NaN"
                  \/ \E i \in IntPos(k) : k.cls[i] = "nonint"
 MustReportDeriv(k) == WantD(k) /\ \E i \in IntPos(k) : ~Const(k, i)
+\* flag vectors of length n with at most one TRUE (keeps the outcome space small)
+AtMostOne(n) == {[i \in 1..n |-> FALSE]} \cup {[i \in 1..n |-> i = j] : j \in 1..n}
 Outcomes(k) == [val : {"fin", "inf", "nan"}, err : {"none", "eval", "deriv", "hes"},
-                dn : IF WantD(k) THEN [1..k.ar -> BOOLEAN] ELSE {<<>>},
-                hn : IF WantH(k) THEN [1..NH(k) -> BOOLEAN] ELSE {<<>>},
+                dn : IF WantD(k) THEN AtMostOne(k.ar) ELSE {<<>>},
+                hn : IF WantH(k) THEN AtMostOne(NH(k)) ELSE {<<>>},
+                du : IF WantD(k) THEN AtMostOne(k.ar) ELSE {<<>>},
+                hu : IF WantH(k) THEN {[i \in 1..NH(k) |-> FALSE]} ELSE {<<>>},
                 det : BOOLEAN]
+\* a clean, error-free answer
+CleanOuts(k) == {r \in Outcomes(k) : /\ r.err = "none" /\ r.val # "nan" /\ r.det
+                                      /\ \A i \in 1..Len(r.dn) : ~r.dn[i] /\ ~r.du[i]
+                                      /\ \A j \in 1..Len(r.hn) : ~r.hn[j]}
 Clean(k, r) == /\ r.val # "nan"
-               /\ WantD(k) => \A i \in 1..k.ar : ~Const(k, i) => ~r.dn[i]
+               /\ WantD(k) => \A i \in 1..k.ar : ~Const(k, i) => (~r.dn[i] /\ ~r.du[i])
                /\ WantH(k) => \A j \in 1..k.ar : \A i \in 1..j : (~Const(k, i) /\ ~Const(k, j)) => ~r.hn[HesIdx(i, j)]
 \* what an ideal binding may answer
 Ideal(k, r) == /\ ~k.rnd => r.det
@@ -52,25 +60,31 @@ Corrupt ==
      \/ \* a partial left unwritten / NaN, no error
         /\ o.err = "none" /\ WantD(c) /\ \E i \in 1..c.ar : ~Const(c, i) /\ o' = [o EXCEPT !.dn[i] = TRUE]
         /\ expect' = "derivs"
+     \/ \* a partial not written at all (whatever the caller's memory held comes back)
+        /\ o.err = "none" /\ WantD(c) /\ \E i \in 1..c.ar : ~Const(c, i) /\ o' = [o EXCEPT !.du[i] = TRUE]
+        /\ expect' = "derivs"
+     \/ /\ o.err = "none" /\ WantH(c)
+        /\ \E j \in 1..c.ar : \E i \in 1..j : ~Const(c, i) /\ ~Const(c, j) /\ o' = [o EXCEPT !.hu[HesIdx(i, j)] = TRUE]
+        /\ expect' = "hes"
      \/ /\ o.err = "none" /\ WantH(c)
         /\ \E j \in 1..c.ar : \E i \in 1..j : ~Const(c, i) /\ ~Const(c, j) /\ o' = [o EXCEPT !.hn[HesIdx(i, j)] = TRUE]
         /\ expect' = "hes"
      \/ \* check_args dropped and the NaN does not propagate
         /\ (\E i \in 1..c.ar : c.cls[i] = "NaN") /\ ~(\E i \in IntPos(c) : c.cls[i] = "nonint") /\ ~MustReportDeriv(c)
-        /\ o' \in {r \in Outcomes(c) : r.err = "none" /\ Clean(c, r) /\ r.det}
+        /\ o' \in CleanOuts(c)
         /\ expect' = "nanarg"
      \/ \* check_int_arg dropped: the argument is truncated silently
         /\ (\E i \in IntPos(c) : c.cls[i] = "nonint") /\ ~(\E i \in 1..c.ar : c.cls[i] = "NaN") /\ ~MustReportDeriv(c)
-        /\ o' \in {r \in Outcomes(c) : r.err = "none" /\ Clean(c, r) /\ r.det}
+        /\ o' \in CleanOuts(c)
         /\ expect' = "nonint"
      \/ \* check_deriv_arg / check_const_arg dropped: a 'derivative' w.r.t. an integer comes back
         /\ MustReportDeriv(c) /\ ~MustReport(c)
-        /\ o' \in {r \in Outcomes(c) : r.err = "none" /\ Clean(c, r) /\ r.det}
+        /\ o' \in CleanOuts(c)
         /\ expect' = "intderiv"
      \/ \* hidden state
         ~c.rnd /\ o' = [o EXCEPT !.det = FALSE] /\ expect' = "determinism"
      \/ \* partials array of the wrong length
-        WantD(c) /\ c.ar > 0 /\ o' = [o EXCEPT !.dn = <<>>] /\ expect' = "shape"
+        WantD(c) /\ c.ar > 0 /\ o' = [o EXCEPT !.dn = <<>>, !.du = <<>>] /\ expect' = "shape"
 
 Next == IssueStep \/ ReturnStep \/ Corrupt \/ (pc = "corrupt" /\ UNCHANGED vars)
 Spec == Init /\ [][Next]_vars
